@@ -347,7 +347,9 @@ pub fn generate(prop: &str, seed: u64) -> W3Scn {
     let levels = if market { *r.pick(&MENV_LEVELS) } else { *r.pick(&ENV_LEVELS) };
     let ticks: Vec<u32> = (0..assets).map(|_| r.range(1, 10) as u32).collect();
     let narrow = r.chance(0.5);
-    let alph: Vec<Vec<u32>> = ticks.iter().map(|t| make_alphabet(&mut r, *t, if narrow { 0 } else { 1 })).collect();
+    // histories / per-asset records: half of the runs use a deep alphabet so that every published level gets populated
+    let deep = p.asym && r.chance(0.5);
+    let alph: Vec<Vec<u32>> = ticks.iter().map(|t| make_alphabet(&mut r, *t, if deep { 3 } else if narrow { 0 } else { 1 })).collect();
     let vol_kind = if narrow { r.range(0, 1) as u8 } else { r.range(0, 2) as u8 };
     let step_size = if p.overflow { r.range(1, 4) } else { *r.pick(&[16u64, 64, 1000, 1_000_000, 1_000_000_000]) };
     let t0 = match r.below(4) {
